@@ -9,6 +9,7 @@
 -/
 import ModVerif.Proofs.ModfileFmtStream
 import ModVerif.Proofs.ModfileFmtTrim
+import ModVerif.Proofs.ModfileFmtRender
 namespace ModVerif.Proofs.ModfileFmtClass
 open ModVerif ModVerif.Modfile ModVerif.Proofs.ModfileLex ModVerif.Proofs.ModfileFmtUtf8
 open ModVerif.Proofs.ModfileFmtTok ModVerif.Proofs.ModfileFmtLex ModVerif.Proofs.ModfileFmtLine
@@ -22,17 +23,6 @@ structure LP (i : Input) (ws rest : Bytes) : Prop where
   blank : ∀ b ∈ ws, isBlank b = true
   first : rest ≠ [] → UnicodePrint.isSpace (Utf8.decodeRune (rest ++ i.remaining)).1 = false ∧
     (Utf8.decodeRune (rest ++ i.remaining)).2 ≤ rest.length
-
-def Inv (i : Input) : Prop := ∃ ws rest, LP i ws rest
-
-/-- something other than blanks has been consumed on the current line -/
-def Used (i : Input) : Prop := ∃ ws rest, LP i ws rest ∧ rest ≠ []
-
-theorem Used.inv {i : Input} (h : Used i) : Inv i := by
-  obtain ⟨ws, rest, h, _⟩ := h; exact ⟨ws, rest, h⟩
-
-theorem inv_newInput (data : Bytes) : Inv (newInput data) :=
-  ⟨[], [], ⟨rfl, by simp, fun h => absurd rfl h⟩⟩
 
 theorem linePrefix_adv {i i' : Input} {a : Bytes} (hc : i'.consumedRev = a.reverse ++ i.consumedRev)
     (ha : (10 : UInt8) ∉ a) : linePrefix i' = linePrefix i ++ a := by
@@ -50,14 +40,6 @@ theorem linePrefix_newline {i : Input} {r : Bytes} (hc : i.consumedRev = 10 :: r
   unfold linePrefix; rw [hc]; simp
 
 theorem linePrefix_setId (i : Input) (n : Nat) : linePrefix { i with nextId := n } = linePrefix i := rfl
-
-theorem Inv.setId {i : Input} (h : Inv i) (n : Nat) : Inv { i with nextId := n } := by
-  obtain ⟨ws, rest, h⟩ := h
-  exact ⟨ws, rest, ⟨h.eq, h.blank, h.first⟩⟩
-
-theorem Used.setId {i : Input} (h : Used i) (n : Nat) : Used { i with nextId := n } := by
-  obtain ⟨ws, rest, h, hne⟩ := h
-  exact ⟨ws, rest, ⟨h.eq, h.blank, h.first⟩, hne⟩
 
 /-- consuming bytes without a newline keeps a `Used` prefix `Used` -/
 theorem LP.extend {i i' : Input} {ws rest a : Bytes} (h : LP i ws rest) (hne : rest ≠ [])
@@ -132,83 +114,352 @@ theorem LP.trim_ne_nil {i : Input} {ws rest : Bytes} (h : LP i ws rest) (hne : r
   rw [h1] at hfirst
   cases hfirst
 
+/-! ### ASCII bytes in a white-space sequence -/
+
+/-- an ASCII byte that is not white space -/
+def NSByte (y : UInt8) : Prop := y.toNat < 0x80 ∧ UnicodePrint.isSpace y.toNat = false
+
+theorem spaceSeq_ascii {s : Bytes} (h : SpaceSeq s) : ∀ y ∈ s, y.toNat < 0x80 → UnicodePrint.isSpace y.toNat = true := by
+  induction h with
+  | nil => intro y hy; simp at hy
+  | cons seg t r hd hs _ ih =>
+    intro y hy hlt
+    rcases List.mem_append.1 hy with hy | hy
+    · have hw := decode_width hd
+      by_cases h1 : seg.length = 1
+      · obtain ⟨b, t', hseg, hb, hr⟩ := (decode_rune_ge hd).2 h1
+        rw [hseg] at h1 hy
+        have : t' = [] := List.eq_nil_of_length_eq_zero (by simpa using h1)
+        subst this
+        simp at hy
+        subst hy
+        rw [← hr]; exact hs
+      · have := decode_multibyte hd (by omega) y (by rw [List.take_length]; exact hy)
+        omega
+    · exact ih y hy hlt
+
+/-- a line prefix that contains an ASCII byte other than white space -/
+def UsedA (i : Input) : Prop := ∃ y ∈ linePrefix i, NSByte y
+
+/-- a line prefix of blanks followed by something whose first rune is not white space -/
+def UsedS (i : Input) : Prop := ∃ ws rest, LP i ws rest ∧ rest ≠ []
+
+/-- only blanks have been consumed on the current line -/
+def Fresh (i : Input) : Prop := ∃ ws, LP i ws []
+
+/-- something other than white space has been consumed on the current line -/
+def Used (i : Input) : Prop := UsedA i ∨ UsedS i
+
+/-- the line-prefix invariant of the lexer -/
+def Inv (i : Input) : Prop := Fresh i ∨ Used i
+
+theorem inv_newInput (data : Bytes) : Inv (newInput data) :=
+  Or.inl ⟨[], ⟨rfl, by simp, fun h => absurd rfl h⟩⟩
+
+theorem Used.trim_ne_nil {i : Input} (h : Used i) : GoStrings.trimSpace (linePrefix i) ≠ [] := by
+  rcases h with ⟨y, hy, hlt, hns⟩ | ⟨ws, rest, hlp, hne⟩
+  · intro ht
+    have := spaceSeq_ascii ((trimSpace_eq_nil_iff _).1 ht) y hy hlt
+    rw [hns] at this; cases this
+  · exact hlp.trim_ne_nil hne
+
+theorem lp_setId {i : Input} {ws rest : Bytes} (h : LP i ws rest) (n : Nat) : LP { i with nextId := n } ws rest :=
+  ⟨h.eq, h.blank, h.first⟩
+
+theorem Used.setId {i : Input} (h : Used i) (n : Nat) : Used { i with nextId := n } := by
+  rcases h with ⟨y, hy, hn⟩ | ⟨ws, rest, hlp, hne⟩
+  · exact Or.inl ⟨y, hy, hn⟩
+  · exact Or.inr ⟨ws, rest, lp_setId hlp n, hne⟩
+
+theorem Inv.setId {i : Input} (h : Inv i) (n : Nat) : Inv { i with nextId := n } := by
+  rcases h with ⟨ws, hlp⟩ | h
+  · exact Or.inl ⟨ws, lp_setId hlp n⟩
+  · exact Or.inr (h.setId n)
+
+/-- skipping blanks keeps the invariant, freshness and usedness -/
+theorem inv_blanks {i i0 : Input} {ws2 : Bytes} (hws2 : ∀ b ∈ ws2, isBlank b = true)
+    (hc : i0.consumedRev = ws2.reverse ++ i.consumedRev) (hr : i.remaining = ws2 ++ i0.remaining) :
+    (Fresh i → Fresh i0) ∧ (Used i → Used i0) := by
+  constructor
+  · intro ⟨ws, hlp⟩
+    rcases hlp.blanks hws2 hc hr with ⟨_, h⟩ | ⟨hne, _⟩
+    · exact ⟨_, h⟩
+    · exact absurd rfl hne
+  · intro h
+    rcases h with ⟨y, hy, hn⟩ | ⟨ws, rest, hlp, hne⟩
+    · left
+      refine ⟨y, ?_, hn⟩
+      rw [linePrefix_adv hc (blank_no_newline hws2)]
+      exact List.mem_append_left _ hy
+    · right
+      rcases hlp.blanks hws2 hc hr with ⟨he, _⟩ | ⟨_, h⟩
+      · exact absurd he hne
+      · exact ⟨ws, _, h, by simp [hne]⟩
+
+/-- the last byte of what has just been consumed, if it is not a newline, is in the line prefix -/
+theorem last_mem_linePrefix {i0 i : Input} {t : Bytes} {y : UInt8} (hc : i.consumedRev = t.reverse ++ i0.consumedRev)
+    (hl : t.getLast? = some y) (hy : y ≠ 10) : y ∈ linePrefix i := by
+  unfold linePrefix
+  rw [hc]
+  have : t.reverse.head? = some y := by rw [List.head?_reverse]; exact hl
+  cases hr : t.reverse with
+  | nil => rw [hr] at this; simp at this
+  | cons a r =>
+    rw [hr] at this
+    simp at this
+    subst this
+    have : (a != 10) = true := by simpa using hy
+    simp [List.takeWhile, this]
+
+theorem identBody_ascii {a : Bytes} (h : IdentBody a) :
+    ∀ b ∈ a, b.toNat < 0x80 → UnicodePrint.isSpace b.toNat = false := by
+  induction h with
+  | nil => intro b hb; simp at hb
+  | @cons a hne hid _ _ _ ih =>
+    intro b hb hlt
+    rw [← List.take_append_drop (Utf8.decodeRune a).2 a] at hb
+    rcases List.mem_append.1 hb with hb | hb
+    · cases a with
+      | nil => exact absurd rfl hne
+      | cons c t =>
+        by_cases hc : c.toNat < 0x80
+        · rw [decodeRune_ascii c t hc] at hb hid
+          simp at hb
+          subst hb
+          exact isIdent_not_space hid
+        · have := (decodeRune_nonascii c t (by omega)).2 b hb
+          omega
+    · exact ih b hb hlt
+
+theorem identBody_no_newline {a : Bytes} (h : IdentBody a) : (10 : UInt8) ∉ a := by
+  intro hm
+  have := identBody_ascii h 10 hm (by decide)
+  revert this; decide
+
 /-! ### `readToken` and the invariant -/
 
-theorem tokOK_no_newline {k : TokKind} {t : Bytes} (h : TokOK k t) : (10 : UInt8) ∉ t := by
-  cases h with
-  | punct c hc =>
-    intro h
-    simp at h
-    subst h
-    revert hc; decide
-  | string q a hq hb =>
-    -- every rune read by `readString` before the closing quote is not a newline
-    have key : ∀ {n : Nat} {a : Bytes}, StrBody n a → (10 : UInt8) ∉ a := by
-      intro n a hb
-      induction hb with
-      | @close a hne hnl hq hend =>
-        intro hmem
-        cases a with
-        | nil => exact absurd rfl hne
-        | cons c t =>
-          have hnn := (decodeRune_newline c t).2 hnl
-          have : (c :: t).take (Utf8.decodeRune (c :: t)).2 = c :: t := by
-            have := List.take_append_drop (Utf8.decodeRune (c :: t)).2 (c :: t)
-            rw [hend, List.append_nil] at this
-            exact this
-          rw [this] at hnn
-          exact hnn 10 hmem rfl
-      | @esc a hne hnl _ _ _ hne2 _ ih =>
-        intro hmem
-        cases a with
-        | nil => exact absurd rfl hne
-        | cons c t =>
-          have hnn := (decodeRune_newline c t).2 hnl
-          rw [← List.take_append_drop (Utf8.decodeRune (c :: t)).2 (c :: t)] at hmem
-          rcases List.mem_append.1 hmem with hm | hm
-          · exact hnn 10 hm rfl
-          · -- the escaped rune
-            generalize hd : (c :: t).drop (Utf8.decodeRune (c :: t)).2 = d at hm hne2 ih
-            cases d with
-            | nil => exact absurd rfl hne2
-            | cons c2 t2 =>
-              rw [← List.take_append_drop (Utf8.decodeRune (c2 :: t2)).2 (c2 :: t2)] at hm
-              rcases List.mem_append.1 hm with hm | hm
-              · by_cases h10 : (Utf8.decodeRune (c2 :: t2)).1 = 10
-                · -- an escaped newline cannot occur: `readString` reads it, but then … it can.
-                  -- (the model's readString only tests for newline at the loop head)
-                  exact absurd hm (by
-                    intro hm'
-                    exact absurd rfl (fun (_ : (1 : Nat) = 1) => by
-                      have := (decodeRune_newline c2 t2).1 h10
-                      exact absurd hm' (by
-                        rw [this.2, this.1]
-                        intro _
-                        exact False.elim (by
-                          -- this case is genuinely possible; see below
-                          exact absurd h10 (by
-                            intro _
-                            exact False.elim (by
-                              have := ih
-                              exact absurd hm (by intro _; exact False.elim (by exact?))))))))
-                · exact (decodeRune_newline c2 t2).2 h10 10 hm rfl
-              · exact ih hm
-      | @other a hne hnl _ _ _ ih =>
-        intro hmem
-        cases a with
-        | nil => exact absurd rfl hne
-        | cons c t =>
-          have hnn := (decodeRune_newline c t).2 hnl
-          rw [← List.take_append_drop (Utf8.decodeRune (c :: t)).2 (c :: t)] at hmem
-          rcases List.mem_append.1 hmem with hm | hm
-          · exact hnn 10 hm rfl
-          · exact ih hm
-    intro h
-    rcases List.mem_cons.1 h with h | h
-    · rcases hq with hq | hq <;> subst hq <;> cases h
-    · exact key hb h
-  | ident _ hne hb hnq =>
-    intro h
-    exact (ModfileFmtRender.identBody_bytes hb 10 h).2.2 rfl
+/-- ★ The classification invariant: `readToken` preserves `Inv`; after a line token the line prefix is
+    `Used`; and from a `Used` state no whole-line comment token is delivered. -/
+theorem readToken_class (j i : Input) (h : readToken j = .ok i) (hj : Inv j) :
+    Inv i ∧ (Used j → i.token.kind ≠ .comment) ∧ (∀ t, TokOK i.token.kind t → Used i) := by
+  obtain ⟨ws, i0, hws, hadv, hem⟩ := readToken_emits j i h
+  obtain ⟨hfresh0, hused0⟩ := inv_blanks hws hadv.cons hadv.rem
+  have hinv0 : Inv i0 := by
+    rcases hj with h | h
+    · exact Or.inl (hfresh0 h)
+    · exact Or.inr (hused0 h)
+  cases hem with
+  | eof hk _ hrem hc hr _ =>
+    refine ⟨?_, fun _ => by rw [hk]; simp, fun t ht => by rw [hk] at ht; cases ht⟩
+    -- nothing consumed
+    have hlp : linePrefix i = linePrefix i0 := by unfold linePrefix; rw [hc]
+    rcases hinv0 with ⟨ws0, h0⟩ | ⟨y, hy, hn⟩ | ⟨ws0, rest0, h0, hne⟩
+    · exact Or.inl ⟨ws0, ⟨by rw [hlp]; exact h0.eq, h0.blank, fun h => absurd rfl h⟩⟩
+    · exact Or.inr (Or.inl ⟨y, by rw [hlp]; exact hy, hn⟩)
+    · refine Or.inr (Or.inr ⟨ws0, rest0, ⟨by rw [hlp]; exact h0.eq, h0.blank, fun hh => ?_⟩, hne⟩)
+      have := h0.first hh
+      rw [hrem] at this
+      rw [hr]; exact this
+  | comment hp hrem hc hk _ _ _ =>
+    refine ⟨?_, ?_, ?_⟩
+    · -- after the comment: a fresh line, or (at the end of the input) a used one
+      by_cases hnl : (10 : UInt8) ∈ lineOf i0.remaining
+      · -- the line ends with the newline
+        left
+        refine ⟨[], ⟨?_, by simp, fun h => absurd rfl h⟩⟩
+        have : ∃ body, lineOf i0.remaining = body ++ [10] := by
+          have key : ∀ s : Bytes, (10 : UInt8) ∈ lineOf s → ∃ body, lineOf s = body ++ [10] := by
+            intro s
+            induction s with
+            | nil => intro h; simp [lineOf] at h
+            | cons b t ih =>
+              intro h
+              simp only [lineOf] at h ⊢
+              split
+              · exact ⟨[], rfl⟩
+              · rename_i hb
+                simp only [hb, if_false, List.mem_cons] at h
+                rcases h with h | h
+                · exact absurd h.symm hb
+                · obtain ⟨body, hbody⟩ := ih h
+                  exact ⟨b :: body, by rw [hbody]; rfl⟩
+          exact key _ hnl
+        obtain ⟨body, hbody⟩ := this
+        apply linePrefix_newline (r := body.reverse ++ i0.consumedRev)
+        rw [hc, hbody]; simp
+      · right; left
+        obtain ⟨t, ht⟩ := peekPrefix_slashes hp
+        refine ⟨47, ?_, by decide, by decide⟩
+        rw [linePrefix_adv hc hnl]
+        apply List.mem_append_right
+        rw [ht, lineOf_slashes]; simp
+    · intro hu
+      have := (hused0 hu).trim_ne_nil
+      rw [hk]
+      have hne : (GoStrings.trimSpace (i0.consumedRev.takeWhile (· != 10)).reverse).isEmpty = false := by
+        simpa [linePrefix] using this
+      simp [hne]
+    · intro t ht
+      rw [hk] at ht
+      split at ht <;> cases ht
+  | newline hk _ hrem hc _ =>
+    refine ⟨Or.inl ⟨[], ⟨linePrefix_newline hc, by simp, fun h => absurd rfl h⟩⟩, fun _ => by rw [hk]; simp, ?_⟩
+    intro t ht
+    rw [hk] at ht
+    cases ht with
+    | punct c hc' => exact absurd hc' (by decide)
+  | tok t hk ht hrem hc _ hfirst hwidth =>
+    have hkne : i.token.kind ≠ .comment := by
+      intro he; rw [he] at hk; cases hk
+    have hused : Used i := by
+      generalize i.token.kind = k at hk
+      cases hk with
+      | punct c hc' =>
+        left
+        refine ⟨c, last_mem_linePrefix hc rfl ?_, ?_⟩
+        · intro h; subst h; revert hc'; decide
+        · rcases punctBytes_cases hc' with h | h | h | h | h | h | h <;> subst h <;> exact ⟨by decide, by decide⟩
+      | string q a hq hb =>
+        left
+        have hqn : q.toNat < 0x80 := by rcases hq with h | h <;> subst h <;> decide
+        obtain ⟨b, hb1, hb2⟩ := ModfileFmtRender.strBody_last hb hqn
+        have hbq : b = q := UInt8.toNat_inj.1 hb2
+        subst hbq
+        refine ⟨b, last_mem_linePrefix hc ?_ ?_, ?_⟩
+        · rw [show b :: a = [b] ++ a from rfl, ModfileFmtRender.getLast?_append_ne _ hb.ne_nil]; exact hb1
+        · rcases hq with h | h <;> subst h <;> decide
+        · rcases hq with h | h <;> subst h <;> exact ⟨by decide, by decide⟩
+      | ident _ hne hb hnq =>
+        have hnl := identBody_no_newline hb
+        rcases hinv0 with ⟨ws0, h0⟩ | ⟨y, hy, hn⟩ | ⟨ws0, rest0, h0, hne0⟩
+        · -- first token of the line
+          right
+          refine ⟨ws0, t, ⟨?_, h0.blank, fun _ => ?_⟩, hne⟩
+          · rw [linePrefix_adv hc hnl, h0.eq]; simp
+          · rw [← hrem]; exact ⟨hfirst, hwidth⟩
+        · left
+          refine ⟨y, ?_, hn⟩
+          rw [linePrefix_adv hc hnl]
+          exact List.mem_append_left _ hy
+        · right
+          exact ⟨ws0, _, h0.extend hne0 hc hrem hnl, by simp [hne0]⟩
+    exact ⟨Or.inr hused, fun _ => hkne, fun _ _ => hused⟩
+
+/-! ### the state after an end-of-line token -/
+
+/-- the lexer is at the beginning of a line (only blanks consumed) or at the end of the input -/
+def AtEOL (i : Input) : Prop := Fresh i ∨ i.remaining = []
+
+theorem AtEOL.setId {i : Input} (h : AtEOL i) (n : Nat) : AtEOL { i with nextId := n } := by
+  rcases h with ⟨ws, h⟩ | h
+  · exact Or.inl ⟨ws, lp_setId h n⟩
+  · exact Or.inr h
+
+theorem lineOf_no_newline (s : Bytes) (h : (10 : UInt8) ∉ lineOf s) : lineOf s = s := by
+  induction s with
+  | nil => rfl
+  | cons b t ih =>
+    simp only [lineOf] at h ⊢
+    split
+    · rename_i hb; simp [hb] at h
+    · rename_i hb
+      simp only [hb, if_false, List.mem_cons, not_or] at h
+      rw [ih h.2]
+
+theorem lineOf_newline (s : Bytes) (h : (10 : UInt8) ∈ lineOf s) : ∃ body, lineOf s = body ++ [10] := by
+  induction s with
+  | nil => simp [lineOf] at h
+  | cons b t ih =>
+    simp only [lineOf] at h ⊢
+    split
+    · exact ⟨[], rfl⟩
+    · rename_i hb
+      simp only [hb, if_false, List.mem_cons] at h
+      rcases h with h | h
+      · exact absurd h.symm hb
+      · obtain ⟨body, hbody⟩ := ih h
+        exact ⟨b :: body, by rw [hbody]; rfl⟩
+
+theorem Fresh.trim_nil {i : Input} (h : Fresh i) : GoStrings.trimSpace (linePrefix i) = [] := by
+  obtain ⟨ws, hlp⟩ := h
+  rw [hlp.eq, List.append_nil]
+  exact trimSpace_blank ws (fun b hb => isBlank_cases (hlp.blank b hb))
+
+/-- ★ After a newline, an end-of-line comment or a whole-line comment the lexer is at the beginning of a
+    line or at the end of the input; and from such a state no end-of-line comment is delivered. -/
+theorem readToken_eol (j i : Input) (h : readToken j = .ok i) :
+    ((i.token.kind = .punct 10 ∨ i.token.kind = .eolComment ∨ i.token.kind = .comment ∨ i.token.kind = .eof) →
+      AtEOL i) ∧
+    (AtEOL j → i.token.kind ≠ .eolComment) := by
+  obtain ⟨ws, i0, hws, hadv, hem⟩ := readToken_emits j i h
+  obtain ⟨hfresh0, _⟩ := inv_blanks hws hadv.cons hadv.rem
+  cases hem with
+  | eof hk _ _ _ hr _ => exact ⟨fun _ => Or.inr hr, fun _ => by rw [hk]; simp⟩
+  | comment hp hrem hc hk _ _ _ =>
+    constructor
+    · intro _
+      by_cases hnl : (10 : UInt8) ∈ lineOf i0.remaining
+      · left
+        obtain ⟨body, hbody⟩ := lineOf_newline _ hnl
+        refine ⟨[], ⟨?_, by simp, fun h => absurd rfl h⟩⟩
+        apply linePrefix_newline (r := body.reverse ++ i0.consumedRev)
+        rw [hc, hbody]; simp
+      · right
+        have := lineOf_no_newline _ hnl
+        rw [this] at hrem
+        have : i0.remaining ++ [] = i0.remaining ++ i.remaining := by simpa using hrem
+        exact (List.append_cancel_left this).symm
+    · intro hj
+      rcases hj with hf | hr
+      · have := (hfresh0 hf).trim_nil
+        rw [hk]
+        have he : (GoStrings.trimSpace (i0.consumedRev.takeWhile (· != 10)).reverse).isEmpty = true := by
+          simpa [linePrefix] using this
+        simp [he]
+      · -- nothing left: no comment can start here
+        exfalso
+        have h0 : i0.remaining = [] := by
+          have := hadv.rem
+          rw [hr] at this
+          exact (List.append_eq_nil_iff.1 this.symm).2
+        obtain ⟨t, ht⟩ := peekPrefix_slashes hp
+        rw [h0] at ht; cases ht
+  | newline hk _ _ hc _ =>
+    exact ⟨fun _ => Or.inl ⟨[], ⟨linePrefix_newline hc, by simp, fun h => absurd rfl h⟩⟩, fun _ => by rw [hk]; simp⟩
+  | tok t hk _ _ _ _ _ _ =>
+    constructor
+    · intro hor
+      exfalso
+      rcases hor with h | h | h | h
+      · rw [h] at hk
+        cases hk with
+        | punct c hc => exact absurd hc (by decide)
+      · rw [h] at hk; cases hk
+      · rw [h] at hk; cases hk
+      · rw [h] at hk; cases hk
+    · intro _ he; rw [he] at hk; cases hk
+
+/-- every comment the lexer records is marked as an end-of-line comment -/
+theorem readToken_comments (j i : Input) (h : readToken j = .ok i)
+    (hj : ∀ c ∈ j.commentsRev, c.suffix = true) : ∀ c ∈ i.commentsRev, c.suffix = true := by
+  obtain ⟨ws, i0, _, hadv, hem⟩ := readToken_emits j i h
+  have h0 : ∀ c ∈ i0.commentsRev, c.suffix = true := by rw [hadv.comments]; exact hj
+  cases hem with
+  | eof _ _ _ _ _ hcm => rw [hcm]; exact h0
+  | comment _ _ _ hk hcm hcm2 _ =>
+    by_cases hs : (!(GoStrings.trimSpace (i0.consumedRev.takeWhile (· != 10)).reverse).isEmpty) = true
+    · rw [hs] at hk
+      obtain ⟨c0, hc0, heq⟩ := hcm2 (by simpa using hk)
+      rw [heq]
+      intro c hc
+      rcases List.mem_cons.1 hc with rfl | hc
+      · exact hc0
+      · exact h0 c hc
+    · have hs' : (!(GoStrings.trimSpace (i0.consumedRev.takeWhile (· != 10)).reverse).isEmpty) = false := by
+        simpa using hs
+      rw [hs'] at hk
+      rw [hcm (by simpa using hk)]; exact h0
+  | newline _ _ _ _ hcm => rw [hcm]; exact h0
+  | tok t _ _ _ _ hcm _ _ => rw [hcm]; exact h0
 
 end ModVerif.Proofs.ModfileFmtClass
